@@ -486,6 +486,11 @@ class StmtMixin(BuiltinMixin):
         for oid, f in sorted(W):
             if oid in st.heap and f in st.heap[oid]:
                 cur = st.heap[oid][f]
+                if META[oid].kind == "bytebuf" and f == "data":
+                    new = smt.fresh("data", smt.Bytes)
+                    st.assume(smt.L(new) == smt.L(cur))
+                    st.heap[oid][f] = new
+                    continue
                 st.heap[oid][f] = self.havoc_like(st, cur, f, f"loop{k}")
         for cl in spec.invariants:
             st.assume(self.eval_clause(cl, st, ictx))
@@ -495,11 +500,19 @@ class StmtMixin(BuiltinMixin):
                 out.append((s2, br))
                 continue
             if br is False:
+                for cl in spec.exit_hints:
+                    h = self.eval_clause(cl, s2, ictx)
+                    self.oblige(s2, h, "hint", line, f"loop{k}:exit:{cl.name}", cl.tags)
+                    s2.assume(h)
                 if orelse:
                     out.extend(self.exec_block(orelse, s2, ctx))
                 else:
                     out.append((s2, NORMAL))
                 continue
+            for cl in spec.body_hints:
+                h = self.eval_clause(cl, s2, ictx)
+                self.oblige(s2, h, "hint", line, f"loop{k}:body:{cl.name}", cl.tags)
+                s2.assume(h)
             v0 = None
             if spec.variant:
                 v0 = ops.lift(self.eval1(ast.parse(spec.variant, mode="eval").body, s2, ictx))
